@@ -138,7 +138,8 @@ def run(cls, job):
 
 def search(ctx, cls, cfgs, k_max, restrict=None, deadline=None):
     fn = functools.partial(run, cls)
-    res = explore.deviations(fn, k_max, cfgs, deadline=deadline, restrict=restrict)
+    res = explore.deviations(fn, k_max, cfgs, deadline=deadline, restrict=restrict,
+                             stop_if=core.unknown_violation_pred(ctx.prop))
     viols = []
     for (cfg, devs), v in res.violations:
         case = dict(cfg=cfg, devs=[list(d) for d in devs])
